@@ -6,7 +6,9 @@ Model: `MesonModel.Life` (`step : Dir → Cmd → Dir × Out` over coredata.dat 
 the two option files) on top of the C07 `OptionStore` model.  The statements below are about *every* directory
 `d : Dir` (any store, any cmd_line.txt, any option files) and every command unless concrete data is named.
 
-The pinned tree violates the full property in several ways; for each clause the file keeps the full statement as a
+Seven of the nine defects found through this check are repaired in /repo (known_findings.txt, `fixed:` lines) and the
+model mirrors the repaired code.  Two remain (`--wipe` that fails leaves the directory unconfigured; a removed
+option that is still recorded in cmd_line.txt): for those clauses the file keeps the full statement as a
 `def … : Prop`, proves its negation on a concrete history of the harness's test tree (`decide +kernel` evaluates the
 model), and proves the part that does hold as `…_partial` / under the excluding hypothesis.
 -/
@@ -18,65 +20,38 @@ open MesonModel.Options MesonModel.Life
 /-- the full clause: a command that fails leaves the persisted state exactly as it was -/
 def failed_command_is_identity : Prop := ∀ (d : Dir) (c : Cmd), (step d c).2.isOk = false → (step d c).1 = d
 
-/-- Every command except `--wipe` that fails *before* the end of the interpretation (unknown option, invalid value,
-error() in a build file, exception while reading an option, unused-option check) leaves coredata.dat, cmd_line.txt,
+/-- Every command except `--wipe` that fails — before the end of the interpretation (unknown option, invalid value,
+error() in a build file, exception while reading an option, unused-option check) or *after* coredata.dat,
+cmd_line.txt and the introspection file were rewritten (failing postconf script) — leaves coredata.dat, cmd_line.txt,
 the introspection file and the option files exactly as they were. -/
-theorem failed_command_is_identity_partial (d : Dir) (c : Cmd) (e : Err) (hw : ∀ nd, c ≠ .wipe nd)
-    (h : (step d c).2 = .failed e false) : (step d c).1 = d := by
+theorem failed_command_is_identity_partial (d : Dir) (c : Cmd) (e : Err) (l : Bool) (hw : ∀ nd, c ≠ .wipe nd)
+    (h : (step d c).2 = .failed e l) : (step d c).1 = d := by
   cases c with
   | setup nd =>
     simp only [step] at *
     cases hc : d.core with
-    | none => simp only [hc] at h ⊢; exact firstInvocation_early _ _ _ h
+    | none => simp only [hc] at h ⊢; exact firstInvocation_failed _ _ _ _ h
     | some c => simp only [hc] at h ⊢; exact configure_failed _ _ _ _ h
   | configure args => exact configure_failed _ _ _ _ h
   | reconfigure nd =>
     simp only [step] at *
     cases hc : d.core with
-    | none => simp only [hc] at h ⊢; exact firstInvocation_early _ _ _ h
-    | some c => simp only [hc] at h ⊢; exact reconfigure_early _ _ _ _ h
+    | none => simp only [hc] at h ⊢; exact firstInvocation_failed _ _ _ _ h
+    | some c => simp only [hc] at h ⊢; exact reconfigure_failed _ _ _ _ _ h
   | wipe nd => exact absurd rfl (hw nd)
   | editSet b n sp => simp [step] at h
   | editRemove b n => simp [step] at h
 
-/-- `meson configure` that fails in any way is the identity (nothing is written before `set_from_configure_command`
-has returned). -/
-theorem failed_configure_is_identity (d : Dir) (args : List (Key × Option Val)) (e : Err) (l : Bool)
-    (h : (step d (.configure args)).2 = .failed e l) : (step d (.configure args)).1 = d :=
-  configure_failed _ _ _ _ h
-
-/-- The rollback of msetup.py:340-348 does its job for coredata.dat: whatever way a `setup` / `setup --reconfigure`
-fails — also *after* coredata.dat was rewritten — the persisted coredata and the option files are the old ones. -/
-theorem failure_restores_coredata (d : Dir) (c : Cmd) (e : Err) (l : Bool) (hw : ∀ nd, c ≠ .wipe nd)
-    (h : (step d c).2 = .failed e l) : (step d c).1.core = d.core := by
-  cases c with
-  | setup nd =>
-    simp only [step] at *
-    cases hc : d.core with
-    | none => simp only [hc] at h ⊢; rw [firstInvocation_core_of_failed _ _ _ _ h, hc]
-    | some c => simp only [hc] at h ⊢; rw [configure_failed _ _ _ _ h, hc]
-  | configure args =>
-    simp only [step] at *
-    rw [configure_failed _ _ _ _ h]
-  | reconfigure nd =>
-    simp only [step] at *
-    cases hc : d.core with
-    | none => simp only [hc] at h ⊢; rw [firstInvocation_core_of_failed _ _ _ _ h, hc]
-    | some c => simp only [hc] at h ⊢; rw [reconfigure_core_of_failed _ _ _ _ _ h, hc]
-  | wipe nd => exact absurd rfl (hw nd)
-  | editSet b n sp => simp [step] at h
-  | editRemove b n => simp [step] at h
-
-/-- every command of the history fails early and none is a wipe -/
-def AllFailEarly : Dir → List Cmd → Prop
+/-- every command of the history fails and none is a wipe -/
+def AllFail : Dir → List Cmd → Prop
   | _, [] => True
-  | d, c :: r => (∀ nd, c ≠ .wipe nd) ∧ (∃ e, (step d c).2 = .failed e false) ∧ AllFailEarly (step d c).1 r
+  | d, c :: r => (∀ nd, c ≠ .wipe nd) ∧ (∃ e l, (step d c).2 = .failed e l) ∧ AllFail (step d c).1 r
 
 /-- fault sequences, by induction over the history: any number of failing commands in a row is the identity -/
-theorem failed_history_is_identity : ∀ (h : List Cmd) (d : Dir), AllFailEarly d h → runHist d h = d
+theorem failed_history_is_identity : ∀ (h : List Cmd) (d : Dir), AllFail d h → runHist d h = d
   | [], _, _ => rfl
-  | c :: r, d, ⟨hw, ⟨e, he⟩, hr⟩ => by
-    have h1 := failed_command_is_identity_partial d c e hw he
+  | c :: r, d, ⟨hw, ⟨e, l, he⟩, hr⟩ => by
+    have h1 := failed_command_is_identity_partial d c e l hw he
     simp only [runHist]
     rw [h1] at hr ⊢
     exact failed_history_is_identity r d hr
@@ -90,14 +65,15 @@ def AllFailOrEdit : Dir → List Cmd → Prop
 
 /-- `value_persists`, the part that holds for every directory: through any sequence of option-file edits and
 failing commands — including commands that fail *after* coredata.dat was rewritten — coredata.dat, hence every
-effective option value, is exactly what it was (induction over the history) -/
+effective option value, is exactly what it was (induction over the history; `value_persists` for histories with
+successful commands is tied by the correspondence run, see manifest) -/
 theorem value_persists_partial : ∀ (h : List Cmd) (d : Dir), AllFailOrEdit d h →
     (runHist d h).core = d.core ∧ ∀ proj name, (runHist d h).eff proj name = d.eff proj name
   | [], _, _ => ⟨rfl, fun _ _ => rfl⟩
   | c :: r, d, ⟨hw, hc, hr⟩ => by
     have h1 : (step d c).1.core = d.core := by
       rcases hc with ⟨e, l, he⟩ | ⟨b, n, sp, rfl⟩ | ⟨b, n, rfl⟩
-      · exact failure_restores_coredata d c e l hw he
+      · rw [failed_command_is_identity_partial d c e l hw he]
       · cases b <;> rfl
       · cases b <;> rfl
     have ih := value_persists_partial r (step d c).1 hr
@@ -146,23 +122,48 @@ theorem new_option_gets_default (sub : Str) (key : Key) (nobj : Obj) (s : Store)
   exact ⟨rfl, getValueFor_fresh s key nobj _ hx hm ha hy⟩
 
 /-- a changed choice list (or integer range) keeps the old value when it is still valid and otherwise falls back
-to the new default — for an option that does not inherit -/
-theorem changed_choices_keep_or_reset_partial (sub : Str) (key : Key) (nobj old : Obj) (s : Store) (oid : Nat)
+to the new default (an option that does not inherit) -/
+theorem changed_choices_keep_or_reset (sub : Str) (key : Key) (nobj old : Obj) (s : Store) (oid : Nat)
     (hx : s.isCross = false) (hm : key.machine = .host) (hs : key.sub = some sub)
     (hk : alookup key s.options = some oid) (ho : s.heap[oid]? = some old) (ha : alookup key s.augments = none)
     (hc : old.kind.sameClass nobj.kind = true) (hd : old.kind.choicesDiffer nobj.kind = true)
-    (hy : nobj.yielding = false) :
+    (hy : nobj.yielding = false) (hp : nobj.parent = none) :
     (∀ v, validate nobj.kind old.value = .ok v →
-      getValueFor (updateOne sub (key, nobj) s).2 key = .ok v) ∧
+      (updateOne sub (key, nobj) s).1 = .ok () ∧ getValueFor (updateOne sub (key, nobj) s).2 key = .ok v) ∧
     (validate nobj.kind old.value = .error .meson →
-      getValueFor (updateOne sub (key, nobj) s).2 key = .ok nobj.value) := by
+      (updateOne sub (key, nobj) s).1 = .ok () ∧ getValueFor (updateOne sub (key, nobj) s).2 key = .ok nobj.value) := by
+  have hr := updateOne_replace sub key nobj old s oid hx hm hs hk ho (by simp [hc, hd])
+  rw [hr, hc]
   constructor
   · intro v hv
-    rw [updateOne_choices_keep sub key nobj old s oid v hx hm hs hk ho hc hd hv]
-    exact getValueFor_fresh s key { nobj with value := v } _ hx hm ha hy
+    exact replaceObj_plain key nobj old oid false s hx hm ha hy hp v (Or.inr (Or.inl ⟨rfl, hv⟩))
   · intro hv
-    rw [updateOne_choices_reset sub key nobj old s oid hx hm hs hk ho hc hd hv]
-    exact getValueFor_fresh s key nobj _ hx hm ha hy
+    exact replaceObj_plain key nobj old oid false s hx hm ha hy hp nobj.value (Or.inr (Or.inr ⟨rfl, hv, rfl⟩))
+
+/-- … and an *inheriting* subproject option whose choices change is linked to the registered top-level object again
+and keeps reading it (before the repair: `yielding = True, parent = None`, AttributeError) -/
+theorem changed_choices_inheriting_follows_parent (sub : Str) (key : Key) (nobj old p : Obj) (s : Store) (oid pid : Nat)
+    (hx : s.isCross = false) (hm : key.machine = .host) (hs : key.sub = some sub) (hst : key.subTruthy = true)
+    (hk : alookup key s.options = some oid) (ho : s.heap[oid]? = some old) (ha : alookup key s.augments = none)
+    (hc : old.kind.sameClass nobj.kind = true) (hd : old.kind.choicesDiffer nobj.kind = true)
+    (hy : nobj.yielding = true) (hold : old.yielding = true)
+    (hpk : alookup key.asRoot s.options = some pid) (hp : s.heap[pid]? = some p) (hpp : p.parent = none)
+    (hpc : p.kind.sameClass nobj.kind = true) (hpo : pid ≠ oid)
+    (hv : ∃ e, validate nobj.kind old.value = .ok e ∨ validate nobj.kind old.value = .error .meson) :
+    (updateOne sub (key, nobj) s).1 = .ok () ∧ getValueFor (updateOne sub (key, nobj) s).2 key = .ok p.value := by
+  have hr := updateOne_replace sub key nobj old s oid hx hm hs hk ho (by simp [hc, hd])
+  rw [hr, hc]
+  exact replaceObj_inheriting key nobj old p oid pid s hx hm ha hy hst hpk hp hpp hpc hpo hold hv
+
+/-- a changed *type* replaces the option: it starts from its new default -/
+theorem changed_type_gets_new_default (sub : Str) (key : Key) (nobj old : Obj) (s : Store) (oid : Nat)
+    (hx : s.isCross = false) (hm : key.machine = .host) (hs : key.sub = some sub)
+    (hk : alookup key s.options = some oid) (ho : s.heap[oid]? = some old) (ha : alookup key s.augments = none)
+    (hc : old.kind.sameClass nobj.kind = false) (hy : nobj.yielding = false) (hp : nobj.parent = none) :
+    (updateOne sub (key, nobj) s).1 = .ok () ∧ getValueFor (updateOne sub (key, nobj) s).2 key = .ok nobj.value := by
+  have hr := updateOne_replace sub key nobj old s oid hx hm hs hk ho (by simp [hc])
+  rw [hr, hc]
+  exact replaceObj_plain key nobj old oid true s hx hm ha hy hp nobj.value (Or.inl ⟨rfl, rfl⟩)
 
 /-- a changed default alone (same type, same choices / range) changes nothing at all: the option keeps the value it
 has, i.e. the last one the user gave it, else the default it was *created* with -/
@@ -172,16 +173,6 @@ theorem changed_default_keeps_value (sub : Str) (key : Key) (nobj old : Obj) (s 
     (hc : old.kind.sameClass nobj.kind = true) (hd : old.kind.choicesDiffer nobj.kind = false) :
     updateOne sub (key, nobj) s = (.ok (), s) :=
   updateOne_same sub key nobj old s oid hx hm hs hk ho hc hd
-
-/-- a changed *type* does not create a new option: the new default is assigned to the old object (and must pass the
-old type's validation) -/
-theorem changed_type_assigns_new_default_to_old_object (sub : Str) (key : Key) (nobj old : Obj) (s : Store) (oid : Nat)
-    (hx : s.isCross = false) (hm : key.machine = .host) (hs : key.sub = some sub)
-    (hk : alookup key s.options = some oid) (ho : s.heap[oid]? = some old)
-    (hc : old.kind.sameClass nobj.kind = false) :
-    updateOne sub (key, nobj) s =
-      ((setOption key nobj.value false s).1.map (fun _ => ()), (setOption key nobj.value false s).2) :=
-  updateOne_type_change sub key nobj old s oid hx hm hs hk ho hc
 
 /-- a removed option vanishes from the store when the option file is re-read … -/
 theorem removed_option_vanishes_partial (sub : Str) (objs : List (Key × Obj)) (s s' : Store)
@@ -202,9 +193,34 @@ theorem yield_follows_current_parent_partial (s : Store) (k : Key) (id pid : Nat
   have he : ensureKey s k = k := ensureKey_host s k hx hm
   simp [getValueFor, getIdAndValue, resolveId, he, hk, ho, ha, hy, hp, hpo, Except.map]
 
+/-- when the *parent's* choices change, the parent object is replaced and every child that yielded to the old object
+reads the replacement (before the repair the child kept reading the replaced object) -/
+theorem parent_replacement_repoints_children (sub : Str) (key ck : Key) (nobj old c : Obj) (oid cid : Nat) (s : Store)
+    (hx : s.isCross = false) (hm : key.machine = .host) (hs : key.sub = some sub) (hcm : ck.machine = .host)
+    (hk : alookup key s.options = some oid) (ho : s.heap[oid]? = some old)
+    (hc : old.kind.sameClass nobj.kind = true) (hd : old.kind.choicesDiffer nobj.kind = true)
+    (hy : nobj.yielding = false) (hp : nobj.parent = none)
+    (ha : alookup ck s.augments = none) (hkk : key ≠ ck)
+    (hck : alookup ck s.options = some cid) (hch : s.heap[cid]? = some c)
+    (hcy : c.yielding = true) (hcp : c.parent = some oid) (hcc : nobj.kind.sameClass c.kind = true) (w : Val)
+    (hw : validate nobj.kind old.value = .ok w ∨ (validate nobj.kind old.value = .error .meson ∧ w = nobj.value)) :
+    getValueFor (updateOne sub (key, nobj) s).2 ck = .ok w := by
+  have hr := updateOne_replace sub key nobj old s oid hx hm hs hk ho (by simp [hc, hd])
+  rw [hr, hc]
+  exact replaceObj_repoints_child key ck nobj old c oid cid s hx hcm ha hkk hy hp hck hch hcy hcp hcc w hw
+
+/-- dropping the override of an inheriting project option (`-Usub:opt`): it yields again and reads its parent's
+value — whatever that value is (before the repair: not when the parent was the boolean `false`) -/
+theorem drop_override_returns_inherited (s : Store) (k : Key) (id pid : Nat) (o p : Obj)
+    (hx : s.isCross = false) (hm : k.machine = .host)
+    (ha : alookup k s.augments = none) (hk : alookup k s.options = some id) (ho : s.heap[id]? = some o)
+    (hp : o.parent = some pid) (hpo : s.heap[pid]? = some p) (hne : pid ≠ id) :
+    (configureOne (k, none) s).1 = .ok (!o.yielding) ∧ getValueFor (configureOne (k, none) s).2 k = .ok p.value :=
+  configureOne_unset_yielding s k id pid o p hx hm ha hk ho hp hpo hne
+
 /-- dropping a per-subproject override of a builtin option (`-Usub:opt`) removes the augment: the subproject reads
 the global value again -/
-theorem drop_override_returns_inherited_partial (s : Store) (k : Key) (hk : ahas k s.augments = true) :
+theorem drop_builtin_override_returns_global (s : Store) (k : Key) (hk : ahas k s.augments = true) :
     configureOne (k, none) s = (.ok true, { s with augments := aerase k s.augments }) ∧
     alookup k (aerase k s.augments) = none := by
   constructor
@@ -238,27 +254,9 @@ def effErr (d : Dir) (proj : Str) (name : String) : Option Err :=
   | some (.error e) => some e
   | _ => none
 
-/-- a failing postconf script (`boom_late`): coredata.dat is rolled back, cmd_line.txt is not -/
-def hLate : List Cmd := [.setup [bn], .reconfigure [bn, (gk "t_str", sv "late"), (gk "boom_late", sv "true")]]
-
-theorem failed_command_is_identity_counterexample : ¬ failed_command_is_identity := by
-  intro h
-  have h1 := h (runHist d0 [.setup [bn]]) (.reconfigure [bn, (gk "t_str", sv "late"), (gk "boom_late", sv "true")])
-  have hf : (step (runHist d0 [.setup [bn]]) (.reconfigure [bn, (gk "t_str", sv "late"), (gk "boom_late", sv "true")])).2.isOk = false := by
-    decide +kernel
-  have h2 := congrArg Dir.cmdline (h1 hf)
-  revert h2
-  decide +kernel
-
-/-- … and the follow-up `--wipe` then configures with the values of the command that failed -/
-theorem late_failure_then_wipe_uses_failed_values :
-    effOk (step (runHist d0 hLate) (.wipe [bn])).1 [] "t_str" = none ∧
-    (runHist d0 hLate).cmdline = some [bn, (gk "t_str", sv "late"), (gk "boom_late", sv "true")] ∧
-    effOk (runHist d0 hLate) [] "t_str" = some (sv "ts0") := by
-  decide +kernel
-
 /-- a `--wipe` that fails leaves the directory without configuration: here the recorded `t_combo=c` is no longer
-among the choices (a reconfigure falls back to the new default, the wipe dies) -/
+among the choices (a reconfigure falls back to the new default, the wipe dies).  Still true of /repo (recorded
+finding `failed-command-not-identity:wipe:core`). -/
 def hWipe : List Cmd := [.setup [bn, (gk "t_combo", sv "c")], .editSet false "t_combo".toList (C ["a", "b"] "a"), .reconfigure [bn]]
 
 theorem wipe_counterexample :
@@ -267,7 +265,26 @@ theorem wipe_counterexample :
     (step (runHist d0 hWipe) (.wipe [bn])).1.core = none := by
   decide +kernel
 
-/-- full clause: an inheriting subproject option follows the current value of the top-level option -/
+theorem failed_command_is_identity_counterexample : ¬ failed_command_is_identity := by
+  intro h
+  have h1 := h (runHist d0 hWipe) (.wipe [bn]) (by decide +kernel)
+  have h2 := congrArg (fun d => d.core.isSome) h1
+  revert h2
+  decide +kernel
+
+/-- a removed option that was ever set with `-D` stays in cmd_line.txt, `check_unused_options` rejects it after the
+interpretation, the rollback restores the old coredata — the option never vanishes and every reconfigure fails.
+Still true of /repo (recorded finding `removed-option-still-recorded`). -/
+def hRemoved : List Cmd := [.setup [bn, (gk "t_str", sv "u1")], .editRemove false "t_str".toList]
+
+theorem removed_option_vanishes_counterexample :
+    (step (runHist d0 hRemoved) (.reconfigure [bn])).2 = .failed .meson false ∧
+    effOk (step (runHist d0 hRemoved) (.reconfigure [bn])).1 [] "t_str" = some (sv "u1") ∧
+    (step (runHist d0 hRemoved) (.wipe [bn])).1.core = none := by
+  decide +kernel
+
+/-- full clause (not proved as a statement about all histories; tied by the correspondence run): an inheriting
+subproject option follows the current value of the top-level option -/
 def yield_follows_current_parent : Prop :=
   ∀ (h : List Cmd), (runHist d0 h).core.isSome = true → effErr (runHist d0 h) sSub "shared" = none →
     (sk "shared") ∉ ((runHist d0 h).core.map (fun c => c.store.augments.map (·.1))).getD [] →
@@ -275,54 +292,59 @@ def yield_follows_current_parent : Prop :=
         (fun k => (alookup k c.store.options).any (fun id => (c.store.heap[id]?).any (·.yielding))))).getD true = true →
     effOk (runHist d0 h) sSub "shared" = effOk (runHist d0 h) [] "shared"
 
-/-- after the parent's choices changed in the top-level option file the child keeps reading the replaced object -/
+/-! ## the histories on which the tree violated the property before the repairs (regressions, now the good way) -/
+
+/-- a failing postconf script (`boom_late`): everything is rolled back, also cmd_line.txt and the introspection file -/
+def hLate : List Cmd := [.setup [bn], .reconfigure [bn, (gk "t_str", sv "late"), (gk "boom_late", sv "true")]]
+
+theorem late_failure_is_identity :
+    (step (runHist d0 [.setup [bn]]) (.reconfigure [bn, (gk "t_str", sv "late"), (gk "boom_late", sv "true")])).2
+      = .failed .meson true ∧
+    runHist d0 hLate = runHist d0 [.setup [bn]] ∧
+    (step d0 (.setup [bn, (gk "t_str", sv "u1"), (gk "boom_late", sv "true")])).1 = d0 := by
+  decide +kernel
+
+/-- after the parent's choices changed in the top-level option file the child follows the new parent object -/
 def hStale : List Cmd := [.setup [bn], .editSet false "shared".toList (C ["a", "b", "d"] "a"), .reconfigure [bn],
   .configure [(gk "shared", some (sv "d"))]]
 
-theorem yield_follows_current_parent_counterexample : ¬ yield_follows_current_parent := by
-  intro h
-  have h1 := h hStale (by decide +kernel) (by decide +kernel) (by decide +kernel) (by decide +kernel)
-  revert h1
+theorem child_follows_replaced_parent :
+    effOk (runHist d0 hStale) [] "shared" = some (sv "d") ∧ effOk (runHist d0 hStale) sSub "shared" = some (sv "d") := by
   decide +kernel
 
-/-- changed choices of a `yield: true` subproject option: the fresh object is installed with `yielding = true` and
-no parent, and reading it raises AttributeError — in every later (re)configuration -/
+/-- changed choices of a `yield: true` subproject option: the replacement is linked to the parent again -/
 def hOrphan : List Cmd := [.setup [bn], .editSet true "shared".toList (C ["a", "b", "d"] "b" true), .configure [(gk "t_int", some (sv "5"))]]
 
-theorem changed_choices_keep_or_reset_counterexample :
-    effErr (runHist d0 hOrphan) sSub "shared" = some .attribute ∧
-    (step (runHist d0 hOrphan) (.reconfigure [bn])).2 = .failed .attribute false ∧
-    -- undoing the edit does not help: the orphan is persisted
-    (step (step (runHist d0 hOrphan) (.editSet true "shared".toList (C ["a", "b", "c"] "b" true))).1 (.reconfigure [bn])).2
-      = .failed .attribute false := by
+theorem inheriting_option_survives_changed_choices :
+    effOk (runHist d0 hOrphan) sSub "shared" = some (sv "a") ∧
+    (step (runHist d0 hOrphan) (.reconfigure [bn])).2.isOk = true ∧
+    effOk (step (runHist d0 hOrphan) (.configure [(gk "shared", some (sv "c"))])).1 sSub "shared" = some (sv "c") := by
   decide +kernel
 
-/-- `-Usub:flag` on a yielding boolean option whose parent is `false`: `bool(opt.parent)` is the parent's *value* -/
+/-- `-Usub:flag` on a yielding boolean option whose parent is `false` returns to the parent -/
 def hUnset : List Cmd := [.setup [bn], .configure [(sk "flag", some (sv "false"))], .configure [(sk "flag", some (sv "true"))],
   .configure [(sk "flag", none)]]
 
-theorem drop_override_returns_inherited_counterexample :
-    effOk (runHist d0 hUnset) [] "flag" = some (.bool false) ∧ effOk (runHist d0 hUnset) sSub "flag" = some (.bool true) ∧
-    (runHist d0 hUnset).cmdline = some [bn] := by
+theorem unset_boolean_override_returns_to_false_parent :
+    effOk (runHist d0 (hUnset.take 3)) sSub "flag" = some (.bool true) ∧
+    effOk (runHist d0 hUnset) [] "flag" = some (.bool false) ∧ effOk (runHist d0 hUnset) sSub "flag" = some (.bool false) := by
   decide +kernel
 
-/-- `meson configure -Dsub:flag=true` where `true` is the hidden own value of the inheriting option: `changed` is
-false, nothing is saved, the subproject keeps reading the parent (`false`) although cmd_line.txt records the request -/
+/-- `meson configure -Dsub:flag=true` where `true` is the hidden own value of the inheriting option is saved -/
 def hLost : List Cmd := [.setup [bn], .configure [(sk "flag", some (sv "true"))]]
 
-theorem value_persists_counterexample :
-    effOk (runHist d0 hLost) sSub "flag" = some (.bool false) ∧
+theorem override_equal_to_own_value_is_saved :
+    effOk (runHist d0 [.setup [bn]]) sSub "flag" = some (.bool false) ∧
+    effOk (runHist d0 hLost) sSub "flag" = some (.bool true) ∧
     (runHist d0 hLost).cmdline = some [bn, (sk "flag", sv "true")] := by
   decide +kernel
 
-/-- … but a removed option that was ever set with `-D` stays in cmd_line.txt, `check_unused_options` rejects it after
-the interpretation, the rollback restores the old coredata — the option never vanishes and every reconfigure fails -/
-def hRemoved : List Cmd := [.setup [bn, (gk "t_str", sv "u1")], .editRemove false "t_str".toList]
+/-- a changed type: the option is replaced and starts from its new default -/
+def hRetype : List Cmd := [.setup [bn, (gk "t_int", sv "7")], .editSet false "t_int".toList (S "seven"), .reconfigure [bn]]
 
-theorem removed_option_vanishes_counterexample :
-    (step (runHist d0 hRemoved) (.reconfigure [bn])).2 = .failed .meson false ∧
-    effOk (step (runHist d0 hRemoved) (.reconfigure [bn])).1 [] "t_str" = some (sv "u1") ∧
-    (step (runHist d0 hRemoved) (.wipe [bn])).1.core = none := by
+theorem retyped_option_starts_from_new_default :
+    (step (runHist d0 (hRetype.take 2)) (.reconfigure [bn])).2.isOk = true ∧
+    effOk (runHist d0 hRetype) [] "t_int" = some (sv "seven") := by
   decide +kernel
 
 /-! ## non-vacuity: the good paths on the same tree -/
@@ -335,7 +357,7 @@ example :
     effOk (runHist d0 h) [] "extra" = some (sv "e0") ∧ effOk (runHist d0 h) [] "t_combo" = some (sv "b") := by
   decide +kernel
 
-/-- an early failure (`boom`) after the store was mutated in memory is the identity (hypotheses of
+/-- a failure (`boom`) after the store was mutated in memory is the identity (hypotheses of
 `failed_command_is_identity_partial` are satisfiable) -/
 example :
     let d := runHist d0 [.setup [bn]]
@@ -343,12 +365,12 @@ example :
     (step d (.reconfigure [bn, (gk "t_str", sv "u2"), (gk "boom", sv "true")])).1 = d := by
   decide +kernel
 
-/-- `AllFailEarly` is satisfiable by a non-empty history -/
-example : AllFailEarly d0 [.configure [(gk "t_int", some (sv "4"))], .setup [bn, (gk "boom", sv "true")]] := by
-  refine ⟨(by intro nd h; cases h), ⟨.meson, (by decide +kernel)⟩, ?_⟩
+/-- `AllFail` is satisfiable by a non-empty history -/
+example : AllFail d0 [.configure [(gk "t_int", some (sv "4"))], .setup [bn, (gk "boom", sv "true")]] := by
+  refine ⟨(by intro nd h; cases h), ⟨.meson, false, (by decide +kernel)⟩, ?_⟩
   have h1 : (step d0 (.configure [(gk "t_int", some (sv "4"))])).1 = d0 := by decide +kernel
   rw [h1]
-  exact ⟨(by intro nd h; cases h), ⟨.meson, (by decide +kernel)⟩, trivial⟩
+  exact ⟨(by intro nd h; cases h), ⟨.meson, false, (by decide +kernel)⟩, trivial⟩
 
 /-- `AllFailOrEdit` is satisfiable with a late failure and an edit after a real setup -/
 example : AllFailOrEdit (runHist d0 [.setup [bn]])
